@@ -42,7 +42,7 @@ func TourWithdrawalEdges(rt *rapid.T, muts []string) *ChainCase {
 		"MAX_BLS_TO_EXECUTION_CHANGES":         4,
 	})
 	cc := &ChainCase{Profile: "full", Config: ConfigCase{Family: "custom", ForkEpochs: fork, Override: o}}
-	cc.Genesis = GenesisCase{N: n, GenesisTime: 1000, Eth1Seed: rapid.Uint64().Draw(rt, "eth1_seed")}
+	cc.Genesis = GenesisCase{N: n, GenesisTime: 1000, Eth1Seed: rapid.Uint64().Draw(rt, "eth1_seed"), OddCreds: rapid.Bool().Draw(rt, "odd_creds")}
 	for i := 0; i < n; i++ {
 		ac := 0
 		if i >= 4 {
